@@ -1216,7 +1216,12 @@ class NamespaceManager(dict):
         if self.parent:
             # all attempts have failed so far
             # now delegate this to the parent NamespaceManager
-            return self.parent.valid_qualified_name(qname)
+            parent_qname = self.parent.valid_qualified_name(qname)
+            if parent_qname is not None:
+                # anchor the name in this scope as well, so that it keeps denoting
+                # the same URI here whatever this scope declares afterwards
+                return self.valid_qualified_name(parent_qname)
+            return None
 
         # Default to FAIL
         return None
